@@ -288,7 +288,7 @@ func driverApp(c *Ctx) {
 		lib := newAppLib()
 		pipe := map[string][][]byte{"H": nil, "E": nil}
 		peer := map[string]string{"H": "E", "E": "H"}
-		sentHdr := map[string][]byte{} // header of every primary an entity sent, by its system bytes (for S9F9)
+		sentHdr := map[string][]byte{}                  // header of every primary an entity sent, by its system bytes (for S9F9)
 		stream := map[string][]byte{"H": nil, "E": nil} // everything that was put on the wire towards H / E, frame after frame
 		frames := map[string][][]byte{"H": nil, "E": nil}
 		put := func(to string, b []byte) {
